@@ -166,6 +166,23 @@ def main():
                 open(gp, "wb").write(modgen.WRITERS[fmt](song))
                 genmods.append(gp)
                 genmeta[gp] = (list(song['orders']), [len(pt) for pt in song['patterns']])
+            # pattern-loop state carried from a long pattern into a shorter one: the loop start row set by E60 / SB0 in a 64-row pattern is
+            # still there when a later, shorter pattern loops without setting its own (MOD / XM / IT keep loop starts across patterns); and
+            # an S3M / IT loop that ends on the last row of a pattern leaves its start one row past the end
+            for gi, fmt in enumerate(("xm", "it", "xm", "it", "s3m", "it")):
+                chn = 2
+                long_rows = 64; short_rows = 64 if fmt == "s3m" else rng.choice((8, 16, 32))
+                p0 = modgen.empty_pattern(long_rows, chn); p1 = modgen.empty_pattern(short_rows, chn)
+                r0 = rng.randrange(min(short_rows, 40), 60)
+                p0[0][1] = dict(note=25, ins=1)
+                p0[r0][0] = dict(fx=('loop', 0)); p0[min(63, r0 + rng.choice((1, 3)))][0] = dict(fx=('loop', 1))
+                p1[rng.randrange(1, short_rows)][0] = dict(fx=('loop', rng.choice((1, 2))))
+                if gi >= 4:   # a loop that ends on the last row of the pattern
+                    p1 = modgen.empty_pattern(short_rows, chn); p1[short_rows - 3][0] = dict(fx=('loop', 0)); p1[short_rows - 1][0] = dict(fx=('loop', 1))
+                song = dict(chn=chn, orders=[0, 1, 1, 0], patterns=[p0, p1], speed=2, bpm=125, restart=0, name="loopcarry")
+                gp = os.path.join(gendir, "lc%02d.%s" % (gi, fmt))
+                open(gp, "wb").write(modgen.WRITERS[fmt](song))
+                genmods.append(gp); genmeta[gp] = ([0, 1, 1, 0], [long_rows, short_rows])
         mods = mods + genmods
         if replay:
             rp = json.load(open(replay)); mods = [rp["module"]]
@@ -215,6 +232,7 @@ def main():
                         elif r < 0.7: script.append(("SK", rng.choice((0, 1, 1000, 5000, 60000, 10 ** 7, -1, -2147483648, 2147483647, rng.randrange(0, 200000)))))
                         elif r < 0.75: script.append(("RS",))
                         elif r < 0.78: script.append(("ST",)); script.append(("P", 2)); script.append(("RS",))
+                        elif r < 0.88: script.append(("TF", rng.choice((100, 50, 200, 150, 25, 400, 300, 75, 125, 800)))); script.append(("P", rng.choice((1, 3, 12))))     # factors whose time factor is exact in binary: the model's tick size is the floor of an exact rational, the C computes in doubles
                     script.append(("P", 20))
                 r = V.run([pdrv, path, str(rate), str(fmt), str(numvoc), str(mode), "1", "1"], inp="".join(" ".join(str(x) for x in s) + "\n" for s in script), env=env, timeout=600)
                 out = r.stdout.split("\n")
@@ -254,6 +272,10 @@ def main():
                         segs[-1].append(int(w[11]))
                     elif l.startswith("D "):
                         vinp.append(l)
+                    elif l.startswith("C "):
+                        # xmp_set_tempo_factor while playing: the frames that follow are judged with the new time factor
+                        cw2 = l.split(); fr2 = Fraction(float.fromhex(cw2[4])) * Fraction(float.fromhex(cw2[5]))
+                        finp.append("C %s %s %s %d %d" % (cw2[1], cw2[2], cw2[3], fr2.numerator, fr2.denominator))
                     elif l.startswith("OP "):
                         opst[l.split()[1]] = opst.get(l.split()[1], 0) + 1
                         if l.split()[1] in ("SP", "SR", "NX", "PV", "SK", "RS", "ST", "MODE"):
